@@ -376,6 +376,35 @@ macro_rules! boxed_tfi {
     };
 }
 
+// zero-sized items: Vec::with_capacity(N) has capacity usize::MAX, so nothing but the explicit bound limits the pulls
+// @gen macro=boxed_tfi_zst name=c07_try_boxed_from_iter_zst props=C07,C15 quick=U0,0;U2,2 thorough=U1,1;U3,3
+macro_rules! boxed_tfi_zst {
+    ($name:ident, $N:ty, $n:expr) => {
+        #[kani::proof]
+        #[kani::unwind(10)]
+        fn $name() {
+            let avail: usize = kani::any();
+            kani::assume(avail <= $n + 3);
+            let mut polls = 0usize;
+            let mut after_none = false;
+            let mut ended = false;
+            let mut left = avail;
+            let src = core::iter::from_fn(|| {
+                if ended { after_none = true; }
+                polls += 1;
+                if left == 0 { ended = true; None } else { left -= 1; Some(mkz()) }
+            });
+            let r = GenericArray::<Dz, $N>::try_boxed_from_iter(src);
+            kani::assert(r.is_ok() == (avail == $n), "C07.try_boxed_from_iter(ZST): Ok exactly for N items");
+            drop(r);
+            kani::assert(polls <= $n + 1, "C07.try_boxed_from_iter(ZST): pulls at most N + 1 items");
+            kani::assert(!after_none, "C07.try_boxed_from_iter(ZST): never polls the source again after None");
+            kani::assert(unsafe { LIVE_Z } == 0, "C07.try_boxed_from_iter(ZST): every item pulled is dropped exactly once");
+            kani::cover!(true, "end reachable");
+        }
+    };
+}
+
 // @gen macro=boxed_collect_panics name=c07_boxed_collect_panics props=C07 expect=panic quick=U2,2,5 thorough=U0,0,3;U1,1,4
 macro_rules! boxed_collect_panics {
     ($name:ident, $N:ty, $n:expr, $k:expr) => {
@@ -425,6 +454,41 @@ macro_rules! boxed_generate_oom {
             unsafe { ALLOC_FAILS = true };
             let b = Box::<GenericArray<u32, $N>>::generate(|i| i as u32);
             core::mem::forget(b);
+            kani::cover!(true, "returned without panicking");
+        }
+    };
+}
+
+// allocation failure in the other allocating operations: each must end in the standard allocation-error path
+// @gen macro=other_oom name=c16_other_oom props=C16 expect=panic quick=U2,2,0;U2,2,1;U2,2,2;U2,2,3 thorough=U1,1,0;U1,1,1;U1,1,2;U1,1,3
+macro_rules! other_oom {
+    ($name:ident, $N:ty, $n:expr, $which:expr) => {
+        #[kani::proof]
+        #[kani::should_panic]
+        #[kani::unwind(10)]
+        #[kani::stub(alloc::alloc::alloc, alloc_may_fail)]
+        #[kani::stub(alloc::alloc::handle_alloc_error, alloc_error_path)]
+        fn $name() {
+            unsafe { ALLOC_FAILS = true };
+            let a: GenericArray<u32, $N> = GenericArray::from_array(kani::any::<[u32; $n]>());
+            match $which {
+                0 => {
+                    let r = GenericArray::<u32, $N>::try_boxed_from_iter(a.into_iter());
+                    core::mem::forget(r);
+                }
+                1 => {
+                    let r = GenericArray::<u32, $N>::default_boxed();
+                    core::mem::forget(r);
+                }
+                2 => {
+                    let r: Box<[u32]> = a.into();
+                    core::mem::forget(r);
+                }
+                _ => {
+                    let r: Box<GenericArray<u32, $N>> = a.into_iter().collect();
+                    core::mem::forget(r);
+                }
+            }
             kani::cover!(true, "returned without panicking");
         }
     };
